@@ -30,9 +30,6 @@ func genStreamCase(r *Rng, tier string) StreamCase {
 	switch r.Intn(3) {
 	case 0:
 		o := genOptCase(r, tier)
-		for o.hasNegCost() {
-			o = genOptCase(r, tier)
-		}
 		c.Kind, c.Opt = "opt", &o
 	case 1:
 		m := genMaxSatWCNF(r, tier)
@@ -47,7 +44,7 @@ func genStreamCase(r *Rng, tier string) StreamCase {
 func init() {
 	register(&Prop{
 		ID: "C20",
-		Rule: "optimisation (Solver.Optimal on constraint sets with a non-negative cost function), MaxSAT (ParseWCNF(...).Optimal) and enumeration (Solver.Enumerate) problems as for C03/C04/C05, each observed through a result channel of capacity 0,1,2,4 or 16 whose consumer sleeps 0..2000 microseconds after each of its first 0..6 receives. Checked: every delivered result is a model with its true cost (verified evaluation), costs strictly decrease, the last delivered result equals the returned one, the channel is closed when the call returns, enumeration delivers each model once; a deadlock or a send on a closed channel shows as a time-out or a crash of the worker. Non-trivial = at least 2 values delivered; distinct = distinct (problem, capacity, delays).",
+		Rule: "optimisation (Solver.Optimal on constraint sets with a cost function of either sign), MaxSAT (ParseWCNF(...).Optimal) and enumeration (Solver.Enumerate) problems as for C03/C04/C05, each observed through a result channel of capacity 0,1,2,4 or 16 whose consumer sleeps 0..2000 microseconds after each of its first 0..6 receives. Checked: every delivered result is a model with its true cost (verified evaluation), costs strictly decrease, the last delivered result equals the returned one, the channel is closed when the call returns, enumeration delivers each model once; a deadlock or a send on a closed channel shows as a time-out or a crash of the worker. Non-trivial = at least 2 values delivered; distinct = distinct (problem, capacity, delays).",
 		Gens:    []Gen{{Name: "stream", Weight: 1, Make: func(r *Rng, tier string) interface{} { return genStreamCase(r, tier) }}},
 		Run:     runStreamCase,
 		Cases:   defCases(3000, 80000),
